@@ -83,6 +83,22 @@ Section Attestation.
   (* designated outcome of a failed handler: the event is marked observed (and the usual clean-ups
      ran); the error itself goes into an event attribute, which is not state *)
   Definition att_designated (pre : S) : S := cleanup (mark_observed pre).
+
+  (* The whole MsgClaim transaction of the vote that crosses the threshold (msg_server.go Claim -> Attest).
+     A handler may also PANIC (OutgoingTxBatchExecuted on an unknown batch, UpdateOracleSetExecuted on a member mismatch):
+     nothing in the keeper recovers, the panic unwinds through processAttestation, TryAttestation and Attest into
+     baseapp.runTx, which fails the transaction and keeps none of its writes — not the vote either. *)
+  Variable handler_p : S -> option (result S).        (* None = panic *)
+  Variable record_vote : S -> S.    (* Attest, before: att.Votes = append(…); SetAttestation *)
+  Variable finish_vote : S -> S.    (* Attest, after: SetLastEventNonceByOracle; SetLastEventBlockHeightByOracle *)
+  (* result class: 0 = handler succeeded, 1 = handler error tolerated, 2 = transaction failed *)
+  Definition claim_tx (pre : S) : S * Z :=
+    let s1 := mark_observed (record_vote pre) in
+    match handler_p s1 with
+    | None => (pre, 2)
+    | Some (Ok x) => (finish_vote (cleanup (commit s1 x)), 0)
+    | Some (Err x) => (finish_vote (cleanup (discard s1 x)), 1)
+    end.
 End Attestation.
 
 (* ------------------------------------------------------------------------------------------ *)
